@@ -18,7 +18,7 @@ RULE = ("lists of 0..8 valid Tx/Rx messages (all versions, modulations, NOPE) ap
         "octets) or at all offsets in/around every record header and tail plus sampled body offsets (longer files): "
         "parse_all() must return exactly the completely written records, random access must agree, nothing raises; generated read sequences on ONE "
         "reader object (no read may depend on an earlier one); many_records: files with 255..1000 records; aligned_files: a record header placed at "
-        "every offset 2^k-3..2^k+1 (k = 9..17, thorough ..20) by solving for the record mix, reads around and behind it. "
+        "every offset 2^k-3..2^k+1 (k = 9..17, thorough ..20) by solving for the record mix, reads around and behind it; read_histories: 4..24 generated parse_msg / parse_all / append_msg calls on ONE reader object over 2..9 small records. "
         "Non-trivial: >=2 messages of different record size and >=1 cut inside a record header and inside a body.")
 LEVEL = "exploration"
 ASSUMPTIONS = ["for skip beyond the end both [] and False (the documented range error) are accepted",
@@ -224,6 +224,67 @@ def oracle(case):
              "file_len": L, "cuts_tried": len(offsets)})
 
 
+# ---------------------------------------------------------------- read histories on ONE reader object
+@st.composite
+def read_case(draw):
+    n = draw(st.integers(2, 9))
+    msgs = [draw(st.one_of(S.rx_msg(vers=(1,)).filter(lambda m: m["nope"]), S.tx_msg(lens=(148,)), S.rx_msg())) for _ in range(n)]
+    small = st.integers(0, n + 1)
+    call = st.one_of(st.tuples(st.just("idx"), small), st.tuples(st.just("idx"), small),
+                     st.tuples(st.just("all"), st.one_of(st.none(), small), st.one_of(st.none(), st.integers(1, n + 1))),
+                     st.tuples(st.just("all"), st.none(), st.integers(1, 3)),
+                     st.tuples(st.just("append"), st.integers(0, n - 1)))
+    return {"msgs": msgs, "calls": [list(c) for c in draw(st.lists(call, min_size=4, max_size=24))], "realfile": draw(st.integers(0, 5)) == 0}
+
+
+def read_oracle(case):
+    """a long generated sequence of parse_msg(i) / parse_all(skip, count) / append_msg() calls on one DATADumpFile object:
+    every read returns what the model list says, whatever was read before (no read position, cache or partial read may leak)"""
+    msgs = list(case["msgs"])
+    path = None
+    if case["realfile"]:
+        os.makedirs(TMPDIR, exist_ok=True)
+        path = os.path.join(TMPDIR, "hist-%d.bin" % os.getpid())
+        if os.path.exists(path):
+            os.unlink(path)
+        ddf = data_dump.DATADumpFile(path)
+    else:
+        ddf = data_dump.DATADumpFile(io.BytesIO())
+    kinds = set()
+    try:
+        ddf.append_all([tk.build_msg(m) for m in msgs])
+        for k, c_ in enumerate(case["calls"]):
+            n = len(msgs)
+            hist = [tuple(x) for x in case["calls"][max(0, k - 3):k + 1]]
+            if c_[0] == "idx":
+                r = ddf.parse_msg(c_[1])
+                if c_[1] < n:
+                    if not same(r, msgs[c_[1]]):
+                        raise Violation("c15:parse_msg-after-other-reads", "call %d: parse_msg(%d) != stored message; last calls %r" % (k, c_[1], hist))
+                elif r is not None:
+                    raise Violation("c15:parse_msg-beyond-end", "call %d: parse_msg(%d) of %d returned %r; last calls %r" % (k, c_[1], n, r, hist))
+            elif c_[0] == "all":
+                skip, count = c_[1], c_[2]
+                r = ddf.parse_all(skip=skip, count=count)
+                exp_ = msgs[(skip or 0):]
+                if count is not None:
+                    exp_ = exp_[:count]
+                if skip is not None and skip > n and r is False:
+                    continue
+                check_list(r, exp_, "parse_all(skip=%r,count=%r)-after-other-reads (call %d, last calls %r)" % (skip, count, k, hist))
+            else:
+                m = dict(msgs[c_[1] % n], fn=(msgs[c_[1] % n]["fn"] + 1) % 2715648)
+                ddf.append_msg(tk.build_msg(m))
+                msgs.append(m)
+            kinds.add(c_[0])
+    finally:
+        ddf.f.close()
+        if path and os.path.exists(path):
+            os.unlink(path)
+    return (["reads=%d" % min(24, len(case["calls"]) // 4 * 4), "realfile" if case["realfile"] else "bytesio"] + sorted(kinds),
+            len(kinds) >= 2, {"n": len(case["msgs"]), "calls": case["calls"][:12]})
+
+
 def many_records(ctx, rec):
     """files with hundreds of records (record counts / indices beyond 2^8): same oracle on a few deterministic files"""
     from harness.core import Failure
@@ -314,6 +375,7 @@ def aligned_replay(case):
 
 
 SUBS = [Sub("store_read_truncate", strategy=case_st(), oracle=oracle, examples={"quick": 400, "thorough": 12000}),
-        Sub("many_records", fn=many_records), Sub("aligned_files", fn=aligned_files)]
+        Sub("many_records", fn=many_records), Sub("aligned_files", fn=aligned_files),
+        Sub("read_histories", strategy=read_case(), oracle=read_oracle, examples={"quick": 1200, "thorough": 40000})]
 SUBS[1].replay = oracle
 SUBS[2].replay = aligned_replay
